@@ -64,7 +64,7 @@ use nix::libc::{c_void, uintptr_t};
 use nix::sys;
 use nix::sys::signal;
 use nix::sys::signal::{SIGKILL, Signal};
-use nix::sys::wait::{WaitStatus, waitpid};
+use nix::sys::wait::{WaitPidFlag, WaitStatus, waitpid};
 use nix::unistd::Pid;
 use object::Object;
 use os_pipe::PipeWriter;
@@ -495,6 +495,7 @@ impl Debugger {
             signal::kill(self.debugee.tracee_ctl().proc_pid(), Signal::SIGCONT)
                 .map_err(|e| Syscall("kill", e))?;
         }
+        reap_ended_tracees();
 
         self.detached = true;
         Ok(())
@@ -1285,6 +1286,7 @@ impl Drop for Debugger {
                 signal::kill(self.debugee.tracee_ctl().proc_pid(), Signal::SIGCONT)
                     .expect("kill debugee");
             }
+            reap_ended_tracees();
 
             return;
         }
@@ -1348,6 +1350,20 @@ impl Drop for Debugger {
                 ));
             }
             ExecutionStatus::Exited => {}
+        }
+    }
+}
+
+/// Collect the exit notifications of threads that ended while they were traced.
+///
+/// Such a thread stays a zombie until its tracer has waited for it. If the debugger lets the
+/// process go and lives on, these zombies keep the whole thread group from being reaped when the
+/// program ends: it would stay a defunct process for as long as the debugger runs.
+fn reap_ended_tracees() {
+    let flags = WaitPidFlag::__WALL | WaitPidFlag::WNOHANG;
+    while let Ok(status) = waitpid(Pid::from_raw(-1), Some(flags)) {
+        if status == WaitStatus::StillAlive {
+            break;
         }
     }
 }
